@@ -832,6 +832,10 @@ func planC03(prop string, seed uint64, tier string, idx int) *Plan {
 
 // C04: only complete, well-formed manifests are accepted; refusals change nothing.
 func planC04(prop string, seed uint64, tier string, idx int) *Plan {
+	if idx%8 == 7 {
+		// concurrent histories with collections as interference: an acknowledged image is complete once everything is quiet
+		return concSlice(prop, seed, tier, idx)
+	}
 	g := newGen(seed, tier)
 	g.p.Profile = "bad-manifest"
 	g.repos(g.r.between(1, 3))
